@@ -127,6 +127,8 @@ pub fn enumerate(mt: &str, thorough: bool) -> Vec<ClsCase> {
         Some("XRETNX"),
         Some("xrejtx"),
         Some("myretnref"),
+        Some("Pay-Rejt-0001"),
+        Some("x/Retn/77"),
         Some("REJT"),
         Some("RETN"),
     ];
@@ -228,13 +230,11 @@ pub fn oracle(c: &ClsCase, obs: &mut Obs) -> Vec<Violation> {
         || (has("REJT") && !has("/REJT/"))
         || (has("RETN") && !has("/RETN/"));
     let c108 = class108(&c.t108);
-    let ambiguous = lookalike
-        || c108 == "rejt-lower"
-        || c108 == "retn-lower"
-        || matches!(c.t119.as_deref(), Some("REJT") | Some("RETN"));
+    let ambiguous = lookalike || matches!(c.t119.as_deref(), Some("REJT") | Some("RETN"));
     if !ambiguous {
-        let exp_rej = has("/REJT/") || c108 == "REJT";
-        let exp_ret = has("/RETN/") || c108 == "RETN";
+        // tag 108 is matched without regard to case (the predicates fold the reference to upper case)
+        let exp_rej = has("/REJT/") || c108 == "REJT" || c108 == "rejt-lower";
+        let exp_ret = has("/RETN/") || c108 == "RETN" || c108 == "retn-lower";
         let place = format!(
             "72:{}|108:{}",
             if has("/REJT/") && has("/RETN/") {
@@ -286,9 +286,9 @@ pub fn oracle(c: &ClsCase, obs: &mut Obs) -> Vec<Violation> {
 use crate::driver::Obs as _ObsAlias;
 
 pub fn run(ctx: &Ctx) {
-    ctx.add_rule("enumerated product for MT103, MT202, MT205: field 72 (absent / neutral / each of 13 code-word atoms incl. look-alikes and lower case at line start, mid-line, second line / pairs of atoms) x tag 108 (8 values) x tag 119 (6 values) x MT202 sequence B (absent, cover, other); control types without classification; non-trivial = carries at least one code word; distinct by text");
+    ctx.add_rule("enumerated product for MT103, MT202, MT205: field 72 (absent / neutral / each of 13 code-word atoms incl. look-alikes and lower case at line start, mid-line, second line / pairs of atoms) x tag 108 (10 values: none, plain, code word upper / lower / mixed case, bare and embedded) x tag 119 (6 values) x MT202 sequence B (absent, cover, other); control types without classification; non-trivial = carries at least one code word; distinct by text");
     ctx.exhaustive("the whole product is enumerated");
-    ctx.assume("absolute verdict only where the code word is unambiguous (exact /REJT/ or /RETN/ in 72, REJT/RETN upper case in 108, no look-alike anywhere); consistency across types and plugin method are judged on all inputs");
+    ctx.assume("absolute verdict only where the code word is unambiguous (exact /REJT/ or /RETN/ in 72, REJT/RETN in 108 in any letter case - the predicates fold the user reference to upper case, src/swift_message.rs has_reject_codes/has_return_codes -, no look-alike anywhere); consistency across types and plugin method are judged on all inputs");
     let thorough = !ctx.quick();
     let types = ["103", "202", "205"];
     let to_json = |c: &ClsCase| serde_json::to_value(c).unwrap();
